@@ -78,6 +78,8 @@ import fam_iter
 
 
 def c08(run, ctx):
+    fam_enc.byte_class_tables(run, ctx)
+    fam_vm.run_returns(run, ctx)
     fam_vm.pos_uses(run, ctx)
     fam_vm.end_arm(run, ctx)
     fam_iter.iterator_impls(run, ctx, only=("Matches", "CaptureMatches"))
@@ -230,6 +232,10 @@ from facts import strip_generics as _sg
 
 
 def c01(run, ctx):
+    fam_enc.byte_class_tables(run, ctx)
+    fam_vm.state_methods(run, ctx)
+    fam_vm.backtrack_cut(run, ctx)
+    fam_vm.atomic_arms(run, ctx)
     fam_vm.pos_uses(run, ctx)
     fam_tmpl.literal_fast_path(run, ctx)
     fam_enc.printable_rule(run, ctx)
@@ -256,6 +262,7 @@ def c01(run, ctx):
 
 
 def c02(run, ctx):
+    fam_iter.iterator_impls(run, ctx, only=("SubCaptureMatches",))
     fam_enc.slot_operands(run, ctx)
     fam_enc.slot_rule(run, ctx)
     fam_enc.wrap_tree_rule(run, ctx)
@@ -270,6 +277,8 @@ def c02(run, ctx):
 
 
 def c03(run, ctx):
+    fam_enc.byte_class_tables(run, ctx)
+    fam_flow.option_consumers(run, ctx)
     fam_tmpl.literal_fast_path(run, ctx)
     fam_tmpl.compile_repeat(run, ctx)
     fam_tmpl.compile_alt(run, ctx)
@@ -350,6 +359,7 @@ def c05(run, ctx):
     fam_vm.end_arm(run, ctx)
     fam_enc.any_arms_rule(run, ctx)
     fam_enc.byte_class_tables(run, ctx)
+    fam_vm.backtrack_cut(run, ctx)
 
 
 def c06(run, ctx):
@@ -367,6 +377,8 @@ def c07(run, ctx):
     _c07_old(run, ctx)
     fam_vm.run_returns(run, ctx)
     fam_tmpl.compile_repeat(run, ctx)
+    fam_tmpl.builder_helpers(run, ctx)
+    fam_tmpl.atomic_and_group_arms(run, ctx)
     fam_xfer.analyzer_rule(run, ctx)
 
 
